@@ -76,6 +76,16 @@ def guard_atoms(func: ast.AST, node: ast.AST) -> list[tuple[str, bool]]:
         for a in atoms(g, pol):
             if a not in out:
                 out.append(a)
+    # a named sub-test (`needs_caller = self.caller and not found_caller`, assigned once,
+    # before the node) stands for the atoms of its value
+    for txt, pol in list(out):
+        if not txt.isidentifier():
+            continue
+        defs = [a_ for a_ in ast.walk(func) if isinstance(a_, ast.Assign) and len(a_.targets) == 1 and isinstance(a_.targets[0], ast.Name) and a_.targets[0].id == txt]
+        if len(defs) == 1 and isinstance(defs[0].value, (ast.BoolOp, ast.Compare, ast.UnaryOp)) and (defs[0].lineno, defs[0].col_offset) < (getattr(node, "lineno", 0), getattr(node, "col_offset", 0)):
+            for a in atoms(defs[0].value, pol):
+                if a not in out:
+                    out.append(a)
     return out
 
 
